@@ -21,7 +21,7 @@ PROP_SCENARIOS = {
 }
 
 
-FOCUSED = {"C12", "C08"}
+FOCUSED = {"C12", "C08", "C16"}
 
 
 def search(pid, failed_items, repo, seed, budget_s=90, n_seeds=400, procs=12):
